@@ -185,6 +185,23 @@ def d3(ctx, F):
               "BincodeCodec encodes with %s and decodes with %s (same option family)" % (fam.get("enc"), fam.get("dec")))
 
 
+def decomp_whole_output(ctx, F, prefix="C14.D1"):
+    """a decompressor returns the decoder's complete output: read_to_end / decode_all directly on the decoder — no Read::take cap
+    (which truncates silently at the limit), no single read()/read_exact into a fixed buffer"""
+    impls = F.impls_of(DECOMPRESS)
+    for im in sorted(impls, key=lambda i: i["self"]):
+        b = F.body(im["items"]["decompress"])
+        bodies = [b] + F.closures_of(b)
+        ctx.touch(*bodies)
+        name = im["self"].rsplit("::", 1)[-1]
+        calls = [c for bd in bodies for c in bd.calls()]
+        whole = [c for c in calls if c.name() in ("read_to_end", "decode_all", "copy", "read_to_string", "decompress_size_prepended")]
+        capped = [c for c in calls if strip_generics(c.callee) in ("std::io::Read::take", "std::io::Read::read", "std::io::Read::read_exact", "std::io::Read::by_ref", "std::io::Read::chain")
+                  or "io::Take<" in c.self_ty or "io::Take<" in " ".join(c.arg_tys)]
+        ctx.check(bool(whole) and not capped, prefix + ".whole-output", "decompress:%s:truncating" % name,
+                  "%s::decompress reads the decoder to its end (no take()/single read that would silently truncate): %s" % (name, [c.name() for c in capped] or "ok"), b.span)
+
+
 def d4(ctx, F):
     """the wire composition encode -> batch -> compress / decompress -> unbatch -> decode: the batch step must mirror and be exact
     (same rules as C05.D5), and the subscriber must apply the inverse pipeline (same rules as C03.D3)"""
@@ -197,6 +214,7 @@ def d4(ctx, F):
 def run(ctx):
     F = ctx.facts("quick")
     d1(ctx, F)
+    decomp_whole_output(ctx, F)
     d2(ctx, F)
     d3(ctx, F)
     d4(ctx, F)
